@@ -1,4 +1,5 @@
 """C20 - each interaction/form is defined at most once (DESIGN.md section 4, C20)."""
+import ast
 from .. import ep
 from ..model import AnalysisError
 from ..values import *     # noqa
@@ -33,6 +34,9 @@ def run(chk):
     chk.attempt("O2", lambda: constructor_checks(chk, P))
     chk.attempt("O3", lambda: registry(chk, P))
     chk.attempt("O4", lambda: fs_duplicates(chk, P))
+    chk.rule("C20.O5", "no accepted file gives one species (pair) two entries in a parsed view, for keys put together with the separators "
+                       "the parser itself splits on", 6)
+    chk.attempt("O5", lambda: view_uniqueness(chk, P))
     chk.assume("configparser contract: in strict mode a repeated section header raises DuplicateSectionError and an option whose "
                "optionxform()-ed key was already seen in that section raises DuplicateOptionError")
 
@@ -168,6 +172,51 @@ def registry(chk, P):
             ok = out == "accepted"
             exp = "accepted"
         chk.ob("C20.O3", "%s is %s" % (what, "rejected" if clash else "accepted"), ok, site=site, found=out, expect=exp, key="C20.O3|%s" % what)
+
+
+def _mined_separators(P):
+    """the text constants the configuration parser splits keys or values on (str.split / re.split / partition with a literal)"""
+    m = P.module("atsim.potentials.config._config_parser")
+    seps = set()
+    for n in ast.walk(m.tree):
+        if isinstance(n, ast.Call) and isinstance(n.func, ast.Attribute) and n.func.attr in ("split", "rsplit", "partition", "rpartition") \
+                and n.args and isinstance(n.args[0], ast.Constant) and isinstance(n.args[0].value, str) and n.args[0].value.strip():
+            seps.add(n.args[0].value)
+    return sorted(seps)
+
+
+def view_uniqueness(chk, P):
+    """the guarantee 'at most one definition per species' rests on one parsed entry per key of the section (the INI parser then
+    refuses repeated keys).  Keys that the parser's own split constants would cut into several labels are the inputs on which
+    that could fail: for each such separator a file with a key 'Al<sep>Cu' next to a key 'Cu' must be refused or give views
+    without repeated species"""
+    from .c14 import parse
+    cls = P.cls("atsim.potentials.config._config_parser", "ConfigParser")
+    seps = _mined_separators(P)
+    if len(seps) < 3:
+        raise AnalysisError("only %d split constants found in the configuration parser (4 confirmed by reading)" % len(seps))
+    for sep in seps:
+        for pad in ("", " "):
+            j = pad + sep + pad if pad else sep
+            texts = {
+                "eam_embed": "[EAM-Embed]\nAl%sCu : as.zero\nCu : as.zero\n" % j,
+                "eam_density": "[EAM-Density]\nAl%sCu : as.zero\nCu : as.zero\n" % j,
+                "pair": "[Pair]\nAl-Al%sCu-Cu : as.zero\nCu-Cu : as.zero\n" % j,
+            }
+            for view, text in texts.items():
+                out = parse(P, text)
+                got = None
+                if out[0] == "ok":
+                    I, cp = out[3], out[4]
+                    try:
+                        rows = I.as_iterable(I.getattr(cp, view)).items
+                        got = [repr(I.getattr(r_, "species").key()) for r_ in rows]
+                    except RaiseSignal as e:
+                        got = None
+                ok = got is None or len(set(got)) == len(got)
+                chk.ob("C20.O5", "%s with the keys %r and %r: refused, or no species defined twice" % (view, text.split("\n")[1].split(" : ")[0],
+                       text.split("\n")[2].split(" : ")[0]), ok, site=cls.lookup(view).site(), found=got, expect="distinct species",
+                       key="C20.O5|%s|%r" % (view, j))
 
 
 def fs_duplicates(chk, P):
